@@ -312,3 +312,63 @@ def agree_lxml_et(d, e, path="/"):
         if r:
             return r
     return None
+
+
+# ------------------------------------------------------------------ history sensitivity: a fresh interpreter as reference
+_FRESH = r'''
+import sys, json, os
+sys.path.insert(0, %(verif)r)
+os.environ.setdefault("PYTHONHASHSEED", "0")
+from harness import common
+common.setup_impl_path()
+from harness import nodelib as NL
+from metapype.model import metapype_io as io
+from metapype.eml import export
+
+
+def strip_ids(sn):
+    return {k: ([strip_ids(c) for c in v] if k == "kids" else v) for k, v in sn.items() if k != "id"}
+
+
+def find(node, path):
+    for i in path:
+        node = node.children[i]
+    return node
+
+
+out = []
+for j in json.load(sys.stdin):
+    try:
+        if j["op"] == "import":
+            n = io.from_xml(j["doc"], clean=j["clean"], collapse=j["collapse"], literals=tuple(j["literals"]))
+            out.append(strip_ids(NL.snapshot(n)))
+        elif j["op"] == "to_xml":
+            root = NL.build(j["tree"], attach=False)
+            n = find(root, j.get("path", []))
+            out.append(io.to_xml(n, n.parent if j.get("with_parent") else None, j.get("level", 0), j.get("skip_ns", False)))
+        elif j["op"] == "eml":
+            root = NL.build(j["tree"], attach=False)
+            out.append(export.to_xml(find(root, j.get("path", [])), j.get("level", 0)))
+        else:
+            out.append({"exc": "bad-op"})
+    except Exception as ex:
+        out.append({"exc": type(ex).__name__})
+json.dump(out, sys.stdout)
+'''
+
+
+def fresh_run(jobs, timeout=600):
+    """Run jobs (dicts, see _FRESH) in a NEW interpreter, in the given order; returns the list of
+    results. The repository is the one of this run (VERIF_REPO is inherited)."""
+    import json
+    import os
+    import subprocess
+    import sys
+    from harness import common
+    env = dict(os.environ)
+    env["PYTHONHASHSEED"] = "0"
+    p = subprocess.run([sys.executable, "-c", _FRESH % {"verif": common.VERIF}], input=json.dumps(jobs),
+                       stdout=subprocess.PIPE, stderr=subprocess.PIPE, text=True, timeout=timeout, env=env)
+    if p.returncode != 0:
+        raise RuntimeError("fresh interpreter failed: " + p.stderr[-800:])
+    return json.loads(p.stdout)
